@@ -35,7 +35,7 @@ MANIFEST = {
 
 
 def plan(tier):
-    t = 400 if tier == "quick" else 2400
+    t = 400 if tier == "quick" else 900
     parts = [f"0:{p},1:{n},2:{m}" for p in range(2) for n in range(2) for m in range(4)]
     return [CH("hierarchy", "harness.c17", "hierarchy", parts, timeout=t, desc="member lists and sub clauses vs reference",
                bounds=BOUNDS[tier], symbolic="shape selectors", stubs=["in-memory FS"])]
